@@ -645,3 +645,99 @@ Proof.
   destruct (run_fault plan 0 (op_prog frepr atomic o) f0) as [g out]. cbn [fst snd] in Hrun.
   apply (rekey_fault_all frepr wss f0 w1 w2 wr old nsp HW Hws Hold Hne Hnotmp Hnn atomic g out Hrun).
 Qed.
+
+(* ------------------------------------------------------------------ the handle after a faulted re-key *)
+Lemma rekey_h_forget : forall A frepr atomic tag ws old nsp (k : unit + perr -> prog A),
+  rekey_h frepr atomic tag ws old nsp (fun _ r => k r) = rekey frepr atomic tag ws old nsp k.
+Proof. reflexivity. Qed.
+
+Section RKH.
+  Variable frepr : fl -> str.
+  Variable wss : list path.
+  Variable f0 : fs.
+  Variables w1 w2 : str.
+  Variable wr : path.
+  Variable old : str.
+  Variable nsp : json.
+  Let ws : path := w1 :: w2 :: wr.
+  Hypothesis HW : WInv frepr wss f0.
+  Hypothesis Hws : In ws wss.
+  Hypothesis Hold : In old (job_dirs f0 ws).
+  Let new := calc_id frepr nsp.
+  Let odir := ws ++ [old].
+  Let ndir := ws ++ [new].
+  Let fname := odir ++ [SPF].
+  Let bak := odir ++ [SPT].
+  Hypothesis Hne : old <> new.
+  Hypothesis Hbak : get f0 bak <> Some Dir.
+
+  (* the first operation observed together with the handle it leaves behind *)
+  Definition rk_obs (atomic : bool) : prog (hst * ores) :=
+    op1_h frepr atomic (KRekey ws old nsp) (fun h r => Ret (h, r)).
+
+  (* A re-key whose DIRECTORY rename fails (injected errno other than ENOENT, at call 2: after the read and
+     the parking of the state point file): the caller sees an exception, the tree is the pre-state (st3: only a
+     stale backup file is gone), and the handle still has the old id and — re-read from the restored file —
+     exactly the on-disk state point. *)
+  Theorem rekey_dir_fault_restores_handle : forall atomic e, e <> ENOENT ->
+    exists f3 h x v0,
+      run_fault (single 2 e) 0 (rk_obs atomic) f0 = (f3, inl (h, inr x)) /\
+      st3 f0 w1 w2 wr old (match get f0 fname with Some (File c) => c | _ => empty_content end) f3 /\
+      hs_ws h = ws /\ hs_id h = old /\ hs_sp h = Some v0 /\ sp_value f0 ws old = Some v0 /\ sp_value f3 ws old = Some v0.
+  Proof.
+    intros atomic e He.
+    destruct (rk_src frepr wss f0 w1 w2 wr old HW Hws Hold) as [Hod0 [c [v0 [G [J E]]]]]. fold ws odir fname in Hod0, G.
+    pose proof (winv_job_nn frepr wss f0 ws old HW Hws Hold c v0 G J) as Hnn.
+    assert (Hfb : fname <> bak).
+    { apply path_eqb_neq. unfold fname, bak. rewrite path_eqb_snoc. reflexivity. }
+    assert (Hpb : get f0 (parent bak) = Some Dir) by (unfold bak; rewrite parent_snoc; exact Hod0).
+    destruct (rename_file_ok f0 fname bak c G Hpb Hfb Hbak) as [f1 [E1 S1]].
+    change (st1 f0 w1 w2 wr old c f1) in S1.
+    assert (P1 : get f1 bak = Some (File c)) by (rewrite S1; fold ws odir bak; rewrite path_eqb_refl; reflexivity).
+    assert (P2 : get f1 (parent fname) = Some Dir) by (unfold fname; rewrite parent_snoc; apply (st1_odir f0 w1 w2 wr old c Hod0 f1 S1)).
+    assert (Hfn1 : get f1 fname = None) by (apply (st1_fname f0 w1 w2 wr old c f1 S1)).
+    assert (P3 : get f1 fname <> Some Dir) by (rewrite Hfn1; discriminate).
+    destruct (rename_file_ok f1 bak fname c P1 P2 (not_eq_sym Hfb) P3) as [f3 [E3 H3]].
+    assert (S3 : st3 f0 w1 w2 wr old c f3).
+    { intro q. fold ws odir fname bak. rewrite H3. destruct (path_eqb q fname) eqn:Q1; auto. destruct (path_eqb q bak) eqn:Q2; auto.
+      rewrite S1. fold ws odir fname bak. rewrite Q2, Q1. reflexivity. }
+    assert (G3 : get f3 fname = Some (File c)) by (rewrite H3, path_eqb_refl; reflexivity).
+    exists f3, {| hs_ws := ws; hs_id := old; hs_sp := Some v0 |}, (if dest_exists_e e then PExn EDestinationExists else POs e), v0.
+    split.
+    - unfold rk_obs, op1_h, with_sp, sp_load.
+      replace (ws ++ [old; SPF]) with fname by (unfold fname, odir; rewrite <- app_assoc; reflexivity).
+      rewrite run_fault_do. cbn [single Nat.eqb].
+      assert (E0 : exec_res f0 (CRead fname) = (f0, FOk (RData c))) by (unfold exec_res; cbn [exec]; rewrite G; reflexivity).
+      rewrite E0, J, Hnn, E, str_eqb_refl.
+      unfold rekey_h. fold new.
+      assert (En : str_eqb old new = false) by (apply str_eqb_neq; exact Hne).
+      rewrite En. cbv zeta. fold odir ndir fname bak.
+      rewrite run_fault_do. cbn [single Nat.eqb]. rewrite E1.
+      rewrite run_fault_do. cbn [single Nat.eqb].
+      rewrite run_fault_do. cbn [single Nat.eqb]. rewrite E3.
+      rewrite run_fault_do. cbn [single Nat.eqb].
+      assert (E5 : exec_res f3 (CRead fname) = (f3, FOk (RData c))) by (unfold exec_res; cbn [exec]; rewrite G3; reflexivity).
+      rewrite E5, J. cbn [fst snd].
+      destruct e; try contradiction; reflexivity.
+    - rewrite G. split; [exact S3|]. repeat split; auto.
+      + rewrite sp_value_dir. fold ws odir fname. rewrite G. exact J.
+      + rewrite sp_value_dir. fold ws odir fname. rewrite G3. exact J.
+  Qed.
+End RKH.
+
+(* the exit through the FIRST rename does not restore the handle (known finding 4): concrete witness *)
+Definition cw_nsp : json := JObj [([97%N], JInt 5)].
+Definition cw_fo : fop := FSet [113%N] (JInt 9).
+Definition cw_forged : json := JObj [([97%N], JInt 5); ([113%N], JInt 9)].
+
+Lemma rekey_first_rename_witness :
+  (let '(f, out) := run_fault (single 1 EIO) 0 (op1_h cw_repr true (KRekey cw_a cw_id cw_nsp) (fun h r => Ret (h, r))) cw_f0 in
+   (exists h x, out = inl (h, inr x) /\ hs_id h = cw_id /\ hs_sp h = Some cw_nsp)      (* exception; rejected value in memory *)
+   /\ sp_value f cw_a cw_id = Some cw_sp                                                (* the disk holds the pre-state *)
+   /\ forallb (fun e => node_same (get cw_f0 (fst e)) (get f (fst e))) (cw_f0 ++ f) = true)
+  /\
+  (let '(f2, out2) := run_fault (single 1 EIO) 0 (follow_prog cw_repr true (KRekey cw_a cw_id cw_nsp) cw_fo) cw_f0 in
+   (exists x, out2 = inl (inr x, inl tt))                                               (* the follow-up succeeds ...          *)
+   /\ validates cw_repr f2 cw_a (calc_id cw_repr cw_forged) = true                      (* ... under a state point never intended *)
+   /\ exists_ f2 (cw_a ++ [calc_id cw_repr (JObj [([97%N], JInt 1); ([113%N], JInt 9)])]) = false).
+Proof. vm_compute. repeat split; eauto. Qed.
